@@ -47,6 +47,8 @@ FIXED = [
   "biscuit_from, biscuit_builder_build, biscuit_authorizer and authorizer_builder_build* dropped the Rust error (error_kind() stayed None or stale); a NULL authorizer builder recorded InvalidArgument and then unwrapped it"),
  ("C19", "fix: public_key_serialize refuses a key", "C19/abort/PubRoundTrip/secp256r1",
   "public_key_serialize copied a 33-byte secp256r1 key into the 32-byte buffer slice: abort"),
+ ("C14", "fix: UnverifiedBiscuit prints a third-party block", "C14/item/*/scope-{ed25519,secp256r1,authority+keys,previous+key} (printed_by UnverifiedBiscuit, third-party block)",
+  "UnverifiedBiscuit::print_block_source on a third-party block resolved its `trusting <key>` scopes against the token-wide key table: in a token whose table holds other keys it printed a different key than Biscuit::print_block_source on the same bytes (also C12 / C07: the unverified view of a third-party block)"),
 ]
 log = subprocess.run(["git", "-C", "/repo", "log", "--format=%H %s"], capture_output=True, text=True).stdout.splitlines()
 path = os.path.join(ROOT, "known_findings.json")
